@@ -66,3 +66,8 @@ def run(ctx, rep):
     if parts is not None:
         C.check_table(r6, parts)
         C.check_routing(r7, parts)
+    r9 = rep.rule("P8.total", "the reading, framing and routing code of chartparse.chart performs no partial operation that can fail on some "
+                              "text (subscript, format template, None receiver, ...): a file lacking a section is rejected with the documented "
+                              "ValueError and an unknown section is reported, never an internal error raised while building the message", floor=5)
+    from .partial import check_partial_scope
+    check_partial_scope(ctx, r9, [f"{CHART}.from_file", f"{CHART}.from_filepath"], only_modules={"chartparse.chart"})
